@@ -166,7 +166,7 @@ func TestCheck(t *testing.T) {
 		return
 	}
 	conds := mc.Pick(r, []string{"", "a"}, []string{"", "a", "b"})
-	r.Rule = "A: request graphs over <=3 probe processors (forward edges, <=2 ordered connections per node, conditions " + fmt.Sprint(conds) + ", connections to the stream end anywhere in the list) x 3 response shapes x every output choice per node (incl. answering the request itself); B: the same graph family as the response direction x every output choice; C: two user flows on nested URL patterns + quota system flows x output choices; non-trivial = inputs whose expected path branches, fans out or answers early; distinct = (graph, input)"
+	r.Rule = "A: request graphs over <=3 probe processors (and over 4 with unconditional connections) (forward edges, <=2 ordered connections per node, conditions " + fmt.Sprint(conds) + ", connections to the stream end anywhere in the list) x 3 response shapes x every output choice per node (incl. answering the request itself); B: the same graph family as the response direction x every output choice; C: two user flows on nested URL patterns + quota system flows x output choices; D: a flow referencing another flow in the three ways of the schema (D1-D3), an early response inside the referenced flow (D4), two flows referencing the same third flow (D5); non-trivial = inputs whose expected path branches, fans out or answers early; distinct = (graph, input)"
 	r.Assume("processors are harness probes (VerifProbe) whose output is chosen by the harness; built-in processors appear only in the system flows of family C", "graphs the loader rejects are counted, not checked")
 	if r.Parallel(t, 16) {
 		r.Finish(t)
@@ -177,13 +177,20 @@ func TestCheck(t *testing.T) {
 	familyC(t, r)
 	familyD(t, r, conds)
 	familyD4(t, r)
+	familyD5(t, r, conds)
 	r.Finish(t)
 }
 
 func familyA(t *testing.T, r *mc.Run, conds []string) {
 	idx := 0
-	for n := 1; n <= 3; n++ {
-		keys := []string{"P1", "P2", "P3"}[:n]
+	for n := 1; n <= 4; n++ {
+		keys := []string{"P1", "P2", "P3", "P4"}[:n]
+		conds := conds
+		if n == 4 && !r.Thorough() {
+			// four processors (the smallest fan-out whose first branch is two processors deep,
+			// where depth-first and breadth-first walks differ): unconditional connections only
+			conds = []string{""}
+		}
 		fg.Forward(keys, conds, 2, func(g fg.Graph) {
 			for shape := 0; shape < 3; shape++ {
 				idx++
@@ -348,8 +355,12 @@ func probeStrings(evs []probe.Event) []string {
 func familyB(t *testing.T, r *mc.Run, conds []string) {
 	idx := 1 << 20
 	req := fg.Graph{Nodes: []string{"Q"}, Root: 0, Edges: [][]fg.Edge{{{Cond: "", To: fg.End}}}}
-	for n := 1; n <= 3; n++ {
-		keys := []string{"R1", "R2", "R3"}[:n]
+	for n := 1; n <= 4; n++ {
+		keys := []string{"R1", "R2", "R3", "R4"}[:n]
+		conds := conds
+		if n == 4 && !r.Thorough() {
+			conds = []string{""}
+		}
 		fg.Forward(keys, conds, 2, func(g fg.Graph) {
 			idx++
 			if !r.Mine(idx) {
@@ -846,5 +857,83 @@ func familyD4(t *testing.T, r *mc.Run) {
 			}
 		}
 		probe.ReportCurrentType = false
+	}
+}
+
+// familyD5: TWO flows (fa on h.com/*, fc on g.com/*) reference the same third flow fb, each in
+// the way of D1 / D2 / D3.  Each transaction runs the referenced graph and then continues in
+// the flow that matched it, never in the other referencing flow (whose copy of fb's graph was
+// built in the same load).
+func familyD5(t *testing.T, r *mc.Run, conds []string) {
+	idx := 1 << 23
+	for _, kind := range []string{"D1", "D2", "D3"} {
+		for n := 1; n <= 2; n++ {
+			keys := []string{"X1", "X2"}[:n]
+			fg.Forward(keys, conds, 2, func(b fg.Graph) {
+				idx++
+				if !r.Mine(idx) {
+					return
+				}
+				aY, bY := flowRefYAML(kind, b)
+				cY := strings.NewReplacer("name: fa\n", "name: fc\n", "h.com/*", "g.com/*", "P1", "P2", "R1", "R2").Replace(aY)
+				files := eng.Files{Flows: map[string]string{"fa.yaml": aY, "fb.yaml": bY, "fc.yaml": cY}}
+				s, _, err := load(files)
+				if err != nil {
+					r.Add("rejected_graphs", 1)
+					r.Outcome("D5 rejected: " + firstWords(err.Error()))
+					return
+				}
+				r.Add("graphs", 1)
+				for _, who := range []struct{ flow, url, p, rr string }{{"fa", "h.com/x", "P1", "R1"}, {"fc", "g.com/x", "P2", "R2"}} {
+					var ref fg.Graph
+					dir := "req"
+					switch kind {
+					case "D1":
+						ref = fg.Graph{Nodes: append(append([]string{}, b.Nodes...), who.p), Root: b.Root}
+						ref.Edges = append(shift(b, 0, len(b.Nodes)), []fg.Edge{{Cond: "", To: fg.End}})
+					case "D2":
+						ref = fg.Graph{Nodes: append([]string{who.p}, b.Nodes...), Root: 0}
+						ref.Edges = append([][]fg.Edge{{{Cond: "a", To: 1 + b.Root}, {Cond: "", To: fg.End}}}, shift(b, 1, fg.End)...)
+					default:
+						dir = "res"
+						ref = fg.Graph{Nodes: append([]string{who.rr}, b.Nodes...), Root: 0}
+						ref.Edges = append([][]fg.Edge{{{Cond: "", To: 1 + b.Root}}}, shift(b, 1, fg.End)...)
+					}
+					tuples(outputs(conds, false), len(ref.Nodes), func(choice []string) {
+						plan := map[string]string{}
+						want := map[string]string{}
+						for i, c := range choice {
+							// whichever flow name the walk reports the referenced processors under,
+							// they get the same output
+							for _, fl := range []string{"fa", "fc", "fb"} {
+								plan[dir+":"+fl+"/"+ref.Nodes[i]] = c
+							}
+							want[ref.Nodes[i]] = c
+						}
+						out := func(_, key string) string { return want[key] }
+						var expect []string
+						if dir == "req" {
+							expect, _ = fg.WalkReq(ref, out)
+						} else {
+							expect = fg.WalkRes(ref, out, -1)
+						}
+						evs, v, rv := runTxn(s, who.url, plan, true)
+						r.Add("evaluations", 1)
+						var got []string
+						for _, e := range evs {
+							if e.Dir == dir && e.Key != "Q" && e.Key != "QB" {
+								got = append(got, e.Key)
+							}
+						}
+						r.NonTrivial(fmt.Sprintf("D5|%s|%s|%s|%v", kind, who.flow, b, choice))
+						r.Outcome(fmt.Sprintf("D5 %s events=%d", kind, len(got)))
+						if v.Err != "" || rv.Err != "" || !eq(expect, got) {
+							r.Violation("FLOW-REFERENCE:two-flows-one-referenced-flow:"+kind, fmt.Sprintf("family D5 %s (flows fa on h.com/* and fc on g.com/* both reference flow fb {%s}) transaction %s input %v: expected %v, observed %v %s%s", kind, b, who.url, choice, expect, got, v.Err, rv.Err),
+								replay{false, "D5-" + kind, files.Flows, nil, plan, who.url, expect, probeStrings(evs)})
+						}
+					})
+				}
+			})
+		}
 	}
 }
